@@ -1,7 +1,7 @@
 #!/bin/bash
 export VERIF_EVIDENCE_DIR=/verif/.work/evidence-seeds; mkdir -p $VERIF_EVIDENCE_DIR
 # usage: seedrun.sh <seed dir> <property id> [more ids]  -- applies the patch to /repo, runs the checks, undoes it
-d=$1; shift
+d=$(realpath $1); shift
 cd /repo && git apply "$d/patch.diff" || { echo "patch does not apply"; exit 3; }
 for p in "$@"; do
   cd /verif && timeout 1700 ./vcheck $p > /tmp/seedrun-$p.log 2>&1; rc=$?
